@@ -40,6 +40,7 @@ class Run:
         self.floors: Dict[str, int] = {}
         self.t0 = time.time()
         self.assumptions: List[str] = []
+        self.analysis_errors: List[str] = []
 
     # ------------------------------------------------------------------ recording
     def rule(self, rid: str, text: str, floor: int = 1):
@@ -54,6 +55,16 @@ class Run:
                     return prev  # the same construct reported under another specialisation
         self.obligations.append(o)
         return o
+
+    def do(self, fn, *args, **kw):
+        """run one rule; an AnalysisError (vanished anchor, unexpected shape) is recorded and the remaining rules still run, so that a
+        violation found by another rule is reported (exit 1) rather than hidden behind a refusal (exit 2)"""
+        from .model import AnalysisError
+        try:
+            return fn(self, *args, **kw)
+        except AnalysisError as e:
+            self.analysis_errors.append(f"{getattr(fn, '__name__', fn)}: {e}")
+            return None
 
     def count(self, key: str, n: int = 1):
         self.counters[key] = self.counters.get(key, 0) + n
@@ -88,9 +99,9 @@ def finish(run: Run, seed: int = 0, selftest: Optional[dict] = None) -> int:
     failing_rules = {o.rule for o in run.obligations if not o.ok}
     for rid, fl in run.floors.items():
         # a rule that already reports an undischarged obligation has not gone blind: it stopped early at the violation
-        if per_rule.get(rid, 0) < fl and rid not in failing_rules:
-            raise AnalysisError(f"rule {rid} matched {per_rule.get(rid, 0)} instance(s), below its floor {fl}: "
-                                f"the rule has gone blind on this tree (anchors moved?)")
+        if per_rule.get(rid, 0) < fl and rid not in failing_rules and not any(rid.replace("R", "r").replace(".", "_") in e for e in run.analysis_errors):
+            run.analysis_errors.append(f"rule {rid} matched {per_rule.get(rid, 0)} instance(s), below its floor {fl}: "
+                                       f"the rule has gone blind on this tree (anchors moved?)")
 
     violations = [o for o in run.obligations if not o.ok]
     listed, unlisted = [], []
@@ -170,6 +181,7 @@ def finish(run: Run, seed: int = 0, selftest: Optional[dict] = None) -> int:
         ],
         "wall_s": round(time.time() - run.t0, 3),
         "violations": len(unlisted),
+        "analysis_errors": run.analysis_errors,
     }
     with open(os.path.join(ev_dir, f"{prop}.json"), "w") as fh:
         json.dump(ev, fh, indent=1)
@@ -181,4 +193,6 @@ def finish(run: Run, seed: int = 0, selftest: Optional[dict] = None) -> int:
         print(f"  analysed {k}: {c}")
     for ln in lines:
         print(ln)
-    return 1 if unlisted else 0
+    for e in run.analysis_errors:
+        print(f"ANALYSIS-ERROR property={prop} {e}")
+    return 1 if unlisted else (2 if run.analysis_errors else 0)
